@@ -238,16 +238,23 @@ Proof.
   - match goal with |- context [obs_equiv ?x ?y] => destruct (obs_equiv x y) as [|p] end.
     + repeat split; discriminate.
     + destruct (k2_shape a || k2_shape b); [repeat split; discriminate|].
-      repeat split; lia.
+      match goal with |- context [if ?c then 57 else _] => destruct c end;
+        [repeat split; discriminate|repeat split; lia].
   - match goal with |- context [if ?c then 0 else 3] => destruct c end; repeat split; discriminate.
 Qed.
 
 (* with the same history on both sides the checker accepts outright *)
+Lemma rca_refl (x : option smap) (t : text) (c : bool) : referenced_contents_agree x x t c = true.
+Proof.
+  unfold referenced_contents_agree. apply forallb_forall. intros [l|] _; [|reflexivity].
+  destruct (content_of_file x (l_file l)); cbn [opt_eqb]; [apply text_eqb_refl|reflexivity].
+Qed.
+
 Lemma obs_equiv_refl (l : list answer) : obs_equiv l l = 0.
 Proof.
   unfold obs_equiv. rewrite !text_eqb_refl. cbn [negb].
   rewrite (list_eqb_attr_refl attr_eqb attr_eqb_refl), (list_eqb_attr_refl attr_eqb_fl attr_eqb_fl_refl).
-  reflexivity.
+  cbn [negb]. rewrite !rca_refl. reflexivity.
 Qed.
 
 Theorem E4_checker_accepts_gen (a b : src) (opsa opsb : list hop) :
